@@ -8,6 +8,7 @@ from ..drivers import index as drv
 from ..drivers import program
 from ..oracles import inv
 
+PIGGY = True  # thorough tier also runs the repository tests / howtos / examples under these monitors
 LEVEL = "exploration"
 PROPS = ("C15",)
 BUDGET = {"quick": 50, "thorough": 300}
